@@ -1,6 +1,6 @@
 // C09 — if, for and set have their defined control-flow meaning.
 //
-// Bounded-exhaustive enumeration of seven families of programs, each rendered on a fresh engine of
+// Bounded-exhaustive enumeration of eight families of programs, each rendered on a fresh engine of
 // the real implementation and compared with a small reference interpreter transcribed from the
 // property statement:
 //
@@ -22,6 +22,13 @@
 //	G  body layouts of one loop: every list of set / do statements (not mentioning loop), reads of
 //	   loop.* and ifs around them up to a token bound — reads before, between and after the other
 //	   statements, at the top level and nested — times where in a statement the read sits -> fam_g.go
+//
+//	H  assignments under an outer definition of the same name: chains of set / do assignments of
+//	   null, undefined, 0, '', false, [], a string and copies to x / y, and loops whose value or key
+//	   variable is x over lists with null elements, while x / y are also engine globals, context
+//	   variables, caller variables of a macro, macro parameters or include-with values; probed by
+//	   if / is null / is defined / print / a copying set after every statement and in later
+//	   iterations                                                            -> fam_h.go
 //
 // Family C is printed a second time with loop.* read only at the end of every loop-context body
 // (keys CL/…, and CD/… with the sets in the do form)                       -> fam_c.go
@@ -94,7 +101,7 @@ func main() {
 	vlib.Main(vlib.Spec{
 		ID:    "C09",
 		Level: "exploration",
-		Rule: "every program of seven generated families inside the stated bounds is rendered on a fresh engine and compared with a reference interpreter " +
+		Rule: "every program of eight generated families inside the stated bounds is rendered on a fresh engine and compared with a reference interpreter " +
 			"written from the property statement: (A) if/elseif/else chains over every value class as context value and as literal; (B) one for loop " +
 			"(value or key,value header, with/without else, top level / inside an outer loop / over a variable assigned by set) over every list, string " +
 			"and range of the bound, printing index, index0, revindex, revindex0, first, last, length, key and value at every position; (C) every statement " +
@@ -104,10 +111,12 @@ func main() {
 				"(F) re-entrant loops: a loop body that reaches its own for node again (include of the same template, include ... only, recursive macro via _self, a registered function that renders the template again; directly or through a second identical template/macro) " +
 				"over per-level lists of every length with a depth guard and over every tree of nested lists of the bound, printing all seven counters, key and value before and after the inner activation, three renders per case on one engine; " +
 				"(G) body layouts of one loop: every list of tokens up to the bound over {set acc = acc ~ v, do cnt = cnt + 1, read of loop.*, if 1 {...}, if 0 else {...}} x the place of the read in its statement " +
-				"(all seven counters, one counter, if condition, ?:, set value, inner loop header, include-with value, macro argument) x sequence x placement, the set variables printed after endfor. Non-trivial = A: the chain has at least two " +
+				"(all seven counters, one counter, if condition, ?:, set value, inner loop header, include-with value, macro argument) x sequence x placement, the set variables printed after endfor; " +
+				"(H) assignments under an outer definition of the same name: every chain of assignments up to the length bound over {null, a null context value, an undefined name, none, 0, '', false, [], 'w', x = y, y = x, y = null, y = 'v'} as set and as do, and (HL) one loop with x as value / key variable over every list of the bound with null elements and `y = x` in its body, " +
+				"x where the body stands (template, block, macro body, macro body after caller sets, macro parameters, include, include only, include with) x (H) plain / taken if / taken else / second pass of a three-pass loop x what else defines x, y, z (nothing, engine globals, context variables, both) x how the variable is observed (if, is null, is defined, print, copy by set, all), every determined variable probed before the chain, after every statement, after the enclosing construct and in every later iteration. Non-trivial = A: the chain has at least two " +
 			"alternatives (elseif or else); B: the sequence has at least two elements, or is empty with an else branch; C: the reference execution enters a " +
 			"loop body or selects among at least two branches; D: a later assignment or print reads an earlier assignment; E: always (every read follows the assignment across a construct boundary); " +
-				"F: a loop body is entered while an iteration of a loop of an outer level is still being rendered; G: the body has at least one read of loop.* and at least one set/do",
+				"F: a loop body is entered while an iteration of a loop of an outer level is still being rendered; G: the body has at least one read of loop.* and at least one set/do; H/HL: a name the program assigns is also defined outside the body (global, context variable, caller set, macro parameter, include-with value)",
 		Assumptions: []string{
 			"bounds: see coverage.bounds; programs larger than the size bound, lists longer than the length bound and ranges outside the grid are not explored",
 			"not demanded (statement silent): loop.* and loop variables after endfor and inside a for-else branch; range() whose step sign contradicts end-start, one-argument range; " +
@@ -115,6 +124,8 @@ func main() {
 			"printing of integers and strings, the ~ operator on them, + on integers and the ?: used by the family-C probe are trusted (property C08)",
 			"family F trusts include ... with {...} [only], macro parameters, _self.macro(...) calls and function calls to hand the stated values to the next level (properties about includes/macros/functions); integer d + 1 and d < N (C08); family G trusts the same for its include-with / macro-argument read forms and range(i, n) with i <= n for its inner-loop-header form",
 			"a `do name = expr` that the parser rejects is a don't-care; one that is accepted must assign like set",
+			"family H trusts Engine.AddGlobal and the render context to define the names before the first assignment (a context variable wins over a global of the same name), macro parameters and include ... with {...} to hand over the stated values, `is null` / `is defined` as tests, and a block of a non-extending template to render in place; it reads `x is defined` after an assignment of null (or a loop binding to a null element) as true — an assigned variable is a defined one; " +
+				"the value of an undefined name (nosuch, none) is only taken to be null-or-empty (falsy, prints nothing), its is-null test is not compared; a variable of the caller inside a macro / included template before its first assignment there is not probed",
 		},
 		QuickDeadline:    150,
 		ThoroughDeadline: 840,
@@ -136,7 +147,7 @@ func main() {
 			for _, fam := range []struct {
 				id  string
 				run func(*vlib.T)
-			}{{"A", runA}, {"B", runB}, {"G", runG}, {"D", runD}, {"E", runE}, {"F", runF}, {"CL", runCLate}, {"C", runC}} {
+			}{{"A", runA}, {"B", runB}, {"G", runG}, {"D", runD}, {"E", runE}, {"H", runH}, {"HL", runHL}, {"F", runF}, {"CL", runCLate}, {"C", runC}} {
 				if on(fam.id) {
 					fam.run(t)
 				}
@@ -152,13 +163,14 @@ func boundsDoc(tier string) map[string]interface{} {
 	th := tier == "thorough"
 	return map[string]interface{}{
 		"A": fmt.Sprintf("%d condition atoms (%d context values, %d literals); chains of 1 and 2 conditions over all atoms, of 3 conditions over %s; each with and without else",
-			len(atoms()), nCtxAtoms(), len(atoms())-nCtxAtoms(), map[bool]string{false: "a 14-atom representative subset", true: "all atoms"}[th]),
+			len(atoms()), nCtxAtoms(), len(atoms())-nCtxAtoms(), map[bool]string{false: "a 14-atom representative subset", true: "all atoms"}[th]) + "; the 1-condition chains also with the context values supplied as engine globals",
 		"B": bBoundsDoc(th),
 		"C": cBoundsDoc(th) + " Plus the " + cLateBoundsDoc(th) + ".",
 		"G": gBoundsDoc(th),
-		"E": fmt.Sprintf("every chain of 1..%d enclosing constructs from {if (taken), if/else (else taken), if/elseif (elseif taken), for over 3 elements, for over nothing with else} around the first assignment of a new variable", eMaxDepth(th)),
+		"E": fmt.Sprintf("every chain of 1..%d enclosing constructs from {if (taken), if/else (else taken), if/elseif (elseif taken), for over 3 elements, for over nothing with else} around the first assignment of a new variable, which is defined nowhere else or is also an engine global", eMaxDepth(th)),
 		"F": fBoundsDoc(th),
-		"D": fmt.Sprintf("assignment chains of length <= %d over %d assignment statements, set form and do form", dMaxLen(th), len(dAlphabet)),
+		"H": hBoundsDoc(th),
+		"D": fmt.Sprintf("assignment chains of length <= %d over %d assignment statements, set form and do form, the three variables starting as context variables / as engine globals / as both (globals holding decoys)", dMaxLen(th), len(dAlphabet)),
 	}
 }
 
